@@ -625,9 +625,42 @@ pub fn gen_sql(rng: &mut Rng, idx: u64) -> SqlCase {
     SqlCase { texts, must_parse: must }
 }
 
+/// Address-space cap around the parser only: current virtual size + 1 GiB as the soft RLIMIT_AS, lifted again
+/// when the batch is done (the cap must not hit the CLI cases that share the worker process).
+struct AsCap;
+impl AsCap {
+    fn new(extra: u64) -> AsCap {
+        let vm_pages = std::fs::read_to_string("/proc/self/statm")
+            .ok()
+            .and_then(|s| s.split_whitespace().next().and_then(|x| x.parse::<u64>().ok()))
+            .unwrap_or(0);
+        unsafe {
+            let mut lim = libc::rlimit { rlim_cur: 0, rlim_max: 0 };
+            libc::getrlimit(libc::RLIMIT_AS, &mut lim);
+            lim.rlim_cur = vm_pages * 4096 + extra;
+            if lim.rlim_max != libc::RLIM_INFINITY && lim.rlim_cur > lim.rlim_max {
+                lim.rlim_cur = lim.rlim_max;
+            }
+            libc::setrlimit(libc::RLIMIT_AS, &lim);
+        }
+        AsCap
+    }
+}
+impl Drop for AsCap {
+    fn drop(&mut self) {
+        unsafe {
+            let mut lim = libc::rlimit { rlim_cur: 0, rlim_max: 0 };
+            libc::getrlimit(libc::RLIMIT_AS, &mut lim);
+            lim.rlim_cur = lim.rlim_max;
+            libc::setrlimit(libc::RLIMIT_AS, &lim);
+        }
+    }
+}
+
 pub fn run_sql(sc: &SqlCase) -> RunReport {
     let mut st = RunStats::default();
     let mut verdict = Verdict::Pass;
+    let _cap = AsCap::new(1 << 30);
     for (k, text) in sc.texts.iter().enumerate() {
         *st.counters.entry("parser_inputs".into()).or_insert(0) += 1;
         let res = std::panic::catch_unwind(|| bigtools::bed::autosql::parse::parse_autosql(text).map(|d| d.len()));
